@@ -84,6 +84,7 @@ def gen_case(rng, idx, tier):
     # half of the exact cases are preceded by the same request on a twin curve holding the same values in another
     # number class: the result must not depend on what other curves did earlier in the process
     d["prime"] = rng.choice([None, "float", "int"]) if nt == "frac" else None
+    d["argform"] = rng.choice(["list", "list", "tuple", "array", "generator"])
     return d
 
 
@@ -126,7 +127,7 @@ def run_case(case, ctx):
         exp = sorted(Uq + nodes_q)
         wf = ref.wellformed(exp)
         valid = wf is not None and wf[0] == p and all(Uq[0] < x < Uq[-1] for x in nodes_q)
-    o = call(curve.knot_insert, nodes_n)
+    o = call(curve.knot_insert, lib.container(nodes_n, case.get("argform", "list")) if not junk else nodes_n)
     if not valid:
         ctx.count("invalid_requests")
         if o.ok:
